@@ -4,6 +4,7 @@ import (
 	"bytes"
 	"encoding/json"
 	"fmt"
+	"os"
 	"sync"
 	"time"
 
@@ -197,6 +198,25 @@ func codecReference() {
 		codecRef = make([][]string, len(corpus))
 		for i := range corpus {
 			codecRef[i] = make([]string, nCodecOps)
+		}
+		// Preferred: the reference computed by the driver with ONE FRESH PROCESS PER CORPUS ENTRY ("alone in a
+		// fresh process" taken literally). An in-process reference is computed entry after entry in the same
+		// process and would silently absorb any process-wide state an earlier entry leaves behind.
+		if path := os.Getenv("KMIPVERIF_CODEC_REF"); path != "" {
+			if raw, err := os.ReadFile(path); err == nil {
+				var ref [][][]byte // results are byte strings: base64 in the file
+				if json.Unmarshal(raw, &ref) == nil && len(ref) == len(corpus) {
+					for i := range ref {
+						for op := range ref[i] {
+							if op < nCodecOps {
+								codecRef[i][op] = string(ref[i][op])
+							}
+						}
+					}
+					resetCodecCaches()
+					return
+				}
+			}
 		}
 		for op := 0; op < nCodecOps; op++ {
 			for i := range corpus {
